@@ -1,6 +1,6 @@
 import Acra.Model.PES
 namespace Acra.Props.C09
-open Acra.Py Acra.Model.MPEGTS Acra.Model.PES
+open Acra.Py Acra.Model.MPEGTS Acra.Model.PES Acra.Gen.PES
 
 theorem u8_eq (a : UInt8) (n : Nat) (h : n < 256) : a.toNat = n ↔ a = UInt8.ofNat n := by
   constructor
@@ -96,5 +96,101 @@ theorem MPEG_payload_exact (t : Pkt) (b0 b1 b2 b3 : UInt8) (rest : Bytes)
     · split
       · rename_i h2 h1; simp [h1]
       · rename_i h2 h1; simp [h3, h1]
+
+theorem exists6 (l : List α) (h : 6 ≤ l.length) : ∃ a b c d e f r, l = a :: b :: c :: d :: e :: f :: r := by
+  match l, h with
+  | a :: b :: c :: d :: e :: f :: r, _ => exact ⟨a, b, c, d, e, f, r, rfl⟩
+
+/-- `PES.unpack` accepts (given that the packet decoder accepted the buffer and produced payload `pl`)
+    exactly when the payload holds at least 9 bytes and starts with the start-code prefix 00 00 01 -/
+theorem PES_prefix_iff (t : PES) (buf : Bytes) (p : Pkt) (hp : Pkt.unpack t.pkt buf = (p, .ok ())) :
+    (PES.unpack t buf).2 = .ok () ↔ 9 ≤ p.payload.length ∧ p.payload.take 3 = [0, 0, 1] := by
+  unfold PES.unpack
+  rw [hp]
+  simp only
+  by_cases h6 : 6 ≤ p.payload.length
+  · obtain ⟨a, b, c, d, e, f, r, hpl⟩ := exists6 p.payload h6
+    have ha := a.toNat_lt
+    have hb := b.toNat_lt
+    have hc := c.toNat_lt
+    rw [hpl]
+    simp only [structUnpackFrom, Acra.Gen.PES.PES_unpack_fmt0, Acra.Gen.PES.PES_unpack_fmt1, Acra.Gen.PES.PES_unpack_fmt2,
+      Fmt.size, codesSize, Code.size, unpackCodes, decInt, beNat, List.length_cons]
+    simp
+    have la : leNat [a] = a.toNat := by simp [leNat]
+    have lcb : leNat [c, b] = c.toNat + 256 * b.toNat := by simp [leNat]
+    rw [la, lcb]
+    have ea : a = 0 ↔ a.toNat = 0 := (u8_eq a 0 (by omega)).symm
+    have eb : b = 0 ↔ b.toNat = 0 := (u8_eq b 0 (by omega)).symm
+    have ec : c = 1 ↔ c.toNat = 1 := (u8_eq c 1 (by omega)).symm
+    rw [ea, eb, ec]
+    by_cases hpre : a.toNat * 65536 + (c.toNat + 256 * b.toNat) = 1
+    · have : a.toNat = 0 ∧ b.toNat = 0 ∧ c.toNat = 1 := by omega
+      simp only [hpre, if_true, this, and_true]
+      by_cases h3 : 3 ≤ r.length
+      · simp only [h3, if_true]
+        split <;> simp
+      · simp [h3]
+    · have : ¬ (a.toNat = 0 ∧ b.toNat = 0 ∧ c.toNat = 1) := by omega
+      simp [hpre, this]
+  · have : ¬ (0 + Acra.Gen.PES.PES_unpack_fmt0.size ≤ p.payload.length) := by
+      simp [Acra.Gen.PES.PES_unpack_fmt0, Fmt.size, codesSize, Code.size]; omega
+    simp only [structUnpackFrom, this, if_false]
+    constructor
+    · intro h; simp at h
+    · intro h; omega
+theorem take_drop_slice (d : Bytes) (m n : Nat) : List.take n (List.drop m d) = slice d m (m + n) := by
+  simp [slice, List.take_drop]
+
+/-- `STANAG4609.unpack` accepts (given that `PES.unpack` accepted and produced PES data `d`) exactly
+    when: PID 0x104, at least 36 bytes of data, the 16-byte universal key at offset 5, data tag 2 at
+    offset 22, tag length 8 at offset 23, and the MISB checksum of `d[5:-2]` equal to the big-endian
+    16-bit value at offset 34 -/
+theorem STANAG_accepts_iff (t : STANAG) (buf : Bytes) (p : PES) (hp : PES.unpack t.pes buf = (p, .ok ())) :
+    (STANAG.unpack t buf).2 = .ok () ↔
+      p.pkt.pid = 0x104 ∧ 36 ≤ p.pesdata.length ∧ slice p.pesdata 5 21 = STANAG4609_UNIVERSAL_KEY ∧
+      decInt true (slice p.pesdata 22 23) = 2 ∧ decInt true (slice p.pesdata 23 24) = 8 ∧
+      checksum_stanag (slice p.pesdata 5 (p.pesdata.length - 2)) = decInt true (slice p.pesdata 34 36) := by
+  unfold STANAG.unpack
+  rw [hp]
+  simp only [STANAG4609_PID, STANAG4609_UNKNOWN_OFFSET, STANAG4609_DATA_TAG,
+    show STANAG4609_UNIVERSAL_KEY.length = 16 from rfl]
+  generalize p.pesdata = d
+  by_cases hpid : p.pkt.pid = 260
+  · simp only [hpid, ne_eq, not_true_eq_false, if_false, true_and]
+    by_cases h36 : 36 ≤ d.length
+    · have s0 : 0 + STANAG_unpack_fmt0.size ≤ d.length := by
+        simp [STANAG_unpack_fmt0, Fmt.size, codesSize, Code.size]; omega
+      have s1 : 16 + 5 + STANAG_unpack_fmt1.size ≤ d.length := by
+        simp [STANAG_unpack_fmt1, Fmt.size, codesSize, Code.size]; omega
+      have s2 : 16 + 5 + 3 + STANAG_unpack_fmt2.size ≤ d.length := by
+        simp [STANAG_unpack_fmt2, Fmt.size, codesSize, Code.size]; omega
+      simp only [structUnpackFrom, s0, s1, s2, if_true]
+      simp only [STANAG_unpack_fmt0, STANAG_unpack_fmt1, STANAG_unpack_fmt2,
+        unpackCodes, Code.size, List.drop_drop, take_drop_slice, h36, true_and]
+      by_cases hk : slice d 5 (16 + 5) = STANAG4609_UNIVERSAL_KEY
+      · simp only [hk, not_true_eq_false, if_false, true_and]
+        by_cases hdt : decInt true (slice d (16 + 5 + 1) (16 + 5 + 1 + 1)) = 2
+        · simp only [hdt, not_true_eq_false, if_false, true_and]
+          by_cases htl : decInt true (slice d (16 + 5 + 1 + 1) (16 + 5 + 1 + 1 + 1)) = 8
+          · simp only [htl, not_true_eq_false, if_false, true_and]
+            by_cases hcs : checksum_stanag (slice d 5 (d.length - 2)) =
+                decInt true (slice d (16 + 5 + 3 + 8 + 1 + 1) (16 + 5 + 3 + 8 + 1 + 1 + 2))
+            · simp [hcs]
+            · simp [hcs]
+          · simp [htl]
+        · simp [hdt]
+      · simp [hk]
+    · have s2 : ¬ (16 + 5 + 3 + STANAG_unpack_fmt2.size ≤ d.length) := by
+        simp [STANAG_unpack_fmt2, Fmt.size, codesSize, Code.size]; omega
+      constructor
+      · intro h
+        exfalso
+        revert h
+        simp only [structUnpackFrom, s2, if_false]
+        repeat' split
+        all_goals simp
+      · rintro ⟨h, _⟩; omega
+  · simp [hpid]
 
 end Acra.Props.C09
